@@ -167,12 +167,17 @@ def run(ctx):
             if isinstance(n, ast.Call) and isinstance(n.func, ast.Attribute) and n.func.attr in ("_consume_resources", "_release_resources"):
                 q = mod.enclosing_qual(n)
                 ok_site = mod.rel == SCHED and q in handler_quals
+                helper = mod.rel == SCHED and q.startswith("Scheduler.") and lc.is_lifecycle_helper(q.split(".", 1)[1])
                 arg_ok = False
-                if ok_site and n.args:
+                if (ok_site or helper) and n.args:
                     a = n.args[0]
                     fn = mod.enclosing_func(n)
-                    jobvar = [h for h in lc.handlers.values() if h.qual == q][0].jobvar
-                    arg_ok = _resolves_to_get_limits(fn, a, jobvar)
+                    if ok_site:
+                        jobvars = [[h for h in lc.handlers.values() if h.qual == q][0].jobvar]
+                    else:
+                        jobvars = [p.arg for p in fn.args.args[1:]]
+                    arg_ok = any(_resolves_to_get_limits(fn, a, jv) for jv in jobvars)
+                    ok_site = True
                 r3.check(
                     ok_site and arg_ok,
                     f"{mod.rel}:{q}:{n.func.attr}",
